@@ -428,6 +428,9 @@ func (r *runner[C]) replayOne(t *testing.T, file string, verbose bool) {
 	if o.OutOfClaim != "" {
 		fmt.Printf("OUT-OF-CLAIM: %s\n", o.OutOfClaim)
 	}
+	if os.Getenv("VERIF_DUMP") != "" && o.Sample != nil {
+		dumpSample(o.Sample)
+	}
 	bad := 0
 	for _, v := range o.Violations {
 		if f := r.ledger.Known(r.spec.ID, v); f != nil {
@@ -582,4 +585,28 @@ func Mix(seed int64, salt uint64) uint64 {
 	x *= 0x94D049BB133111EB
 	x ^= x >> 31
 	return x
+}
+
+// dumpSample prints a sample readably (source texts unescaped).
+func dumpSample(s any) {
+	b, _ := json.Marshal(s)
+	var m map[string]any
+	if json.Unmarshal(b, &m) == nil {
+		for k, v := range m {
+			if k == "sources" || k == "files" {
+				if l, ok := v.([]any); ok {
+					for _, e := range l {
+						if em, ok := e.(map[string]any); ok {
+							fmt.Printf("----- %v\n%v\n", em["name"], em["text"])
+						}
+					}
+					continue
+				}
+			}
+			vb, _ := json.Marshal(v)
+			fmt.Printf("%s: %s\n", k, vb)
+		}
+		return
+	}
+	fmt.Printf("%s\n", b)
 }
